@@ -236,8 +236,15 @@ def cqval(v) -> str:
         return "QOther"
 
 
-def cqcell(c) -> str:
-    return f"(mkQCell {chdr(c)} [" + ";".join(f"({cstr(k)},{cqval(v)})" for k, v in c.values.items()) + "])"
+def chdr_m(c, m) -> str:
+    prev = getattr(c, "prev_evaluation_date", None) if type(c).__name__ == "IncrementalCell" else None
+    return (f"(mkCell {ckind(c)} {cdate(c.period_start)} {cdate(c.period_end)} {cdate(c.evaluation_date)} "
+            f"{copt(prev, cdate)} {cmeta(m)} [])")
+
+
+def cqcell(c, rep=None) -> str:
+    m = rep.get(meta_key(c.metadata), c.metadata) if rep else c.metadata
+    return f"(mkQCell {chdr_m(c, m)} [" + ";".join(f"({cstr(k)},{cqval(v)})" for k, v in c.values.items()) + "])"
 
 
 def cweights(w) -> str:
@@ -317,7 +324,10 @@ def run_impl(tris, weights, method, seed):
         warnings.simplefilter("ignore")
         with Recorder() as rec:
             try:
-                out = S.blend(list(tris), weights, method, seed)
+                if (len(tris) + (seed or 0)) % 2:       # K: positional and keyword spellings of the same call
+                    out = S.blend(list(tris), weights, method, seed)
+                else:
+                    out = S.blend(triangles=list(tris), seed=seed, method=method, weights=weights)
                 return ("ok", out), rec
             except Exception as ex:  # noqa: BLE001
                 return ("err", ex), rec
@@ -360,7 +370,7 @@ class CaseGen:
         for _ in range(50):
             cells, info = self.g.cells(layout=layout, basis=r.choice(["cum", "cum", "inc"]), n_slices=n_slices,
                                        values=values, n_periods=r.randint(1, 3), n_lags=r.randint(1, 3),
-                                       cls=r.choice([None, None, _cell_cls()]))
+                                       cls=r.choice([None, None, _cell_cls()]), same_fields=r.random() < 0.8)
             if 1 <= len(cells) <= 14:
                 return cells, info
         return cells[:6], info
@@ -440,7 +450,8 @@ class CaseGen:
         form = None
         if kind == "err":
             tag = r.choice(["len", "coord", "celltype", "fields", "samplelen", "scalars", "scalartype", "wlen",
-                            "wsum", "wdict_n", "wtuple", "single_list", "method", "wdict_mixed", "wneg"])
+                            "wsum", "wdict_n", "wtuple", "single_list", "method", "wdict_mixed", "wneg", "wempty",
+                            "restated"])
             t = r.randrange(1, M) if M > 1 else 0
             L = list(lists[t])
             j = r.randrange(len(L))
@@ -491,19 +502,48 @@ class CaseGen:
                     f = r.choice(sc)
                     v = c.values[f]
                     L[j] = c.replace(values={**c.values, f: float(v) if isinstance(v, int) else int(v)})
+            elif tag == "restated":
+                # I: the same coordinates twice with other values in EVERY triangle (accepted with a warning); the later
+                # cell wins in blend's index.  Compared through the Coq model only.
+                jj = r.randrange(len(lists[0]))
+                for tt in range(len(lists)):
+                    c0 = lists[tt][jj]
+                    lists[tt] = list(lists[tt]) + [c0.replace(values={k: (v + 1) for k, v in c0.values.items()})]
+                L = list(lists[t])
             lists[t] = L
         date_kinds = ["date"] * len(lists)
         variant = "plain"
         if kind != "err":
-            x = r.random()
-            if x < 0.22:
-                # EQUAL metadata written differently in the blended triangles: detail keys inserted in another order,
-                # 7 vs 7.0.  They are the same coordinates for blend (dict keys by Metadata.__eq__/__hash__).
-                variant = "meta-order"
-                lists = [[respell_meta(c, j) for c in L] for j, L in enumerate(lists)]
-            elif x < 0.44:
-                # some triangles built from pandas.Timestamp / datetime.datetime inputs (the Cell constructor stores dates)
-                variant = "date-kinds"
+            variant = r.choices(["plain", "meta-order", "date-kinds", "flatten-alike", "zeros", "nested-period"],
+                                weights=[40, 18, 18, 9, 8, 7])[0]
+            if variant == "meta-order":
+                # A: EQUAL metadata written differently in the blended triangles (and, half of the time, inside one slice):
+                # detail keys inserted in another order, 7 vs 7.0, True vs 1.  The same coordinates for blend.
+                intra = r.random() < 0.5
+                lists = [[respell_meta(c, j, i, intra) for i, c in enumerate(L)] for j, L in enumerate(lists)]
+            elif variant == "flatten-alike":
+                # B: distinct metadata that flatten alike (details vs loss_details, a detail named like an attribute,
+                # '' vs None vs missing) replace the slices' metadata: they must stay different coordinates
+                specials = flatten_alike_metas()
+                r.shuffle(specials)
+                seen = []
+                for c in lists[0]:
+                    if c.metadata not in seen:
+                        seen.append(c.metadata)
+                lists = [[c.replace(metadata=specials[seen.index(c.metadata) % len(specials)]) for c in L] for L in lists]
+            elif variant == "zeros":
+                # E: falsy values: one field all zeros (0 / 0.0 / zero arrays) in every triangle
+                f0 = r.choice(list(lists[0][0].values))
+                lists = [[c.replace(values={**c.values, **({f0: (np.zeros(len(c.values[f0])) if isinstance(c.values[f0], np.ndarray)
+                                                                  else type(c.values[f0])(0))} if f0 in c.values else {})})
+                          for c in L] for L in lists]
+            elif variant == "nested-period":
+                # J: nested periods sharing a start: an extra cell whose period extends the first cell's by a month
+                lists = [L + [L[0].replace(period_end=L[0].period_end + datetime.timedelta(days=31),
+                                           evaluation_date=max(L[0].evaluation_date, L[0].period_end + datetime.timedelta(days=31)))]
+                         for L in lists]
+            elif variant == "date-kinds":
+                # D: some triangles built from pandas.Timestamp / datetime.datetime inputs (the Cell constructor stores dates)
                 date_kinds = [r.choice(["date", "timestamp", "datetime"]) for _ in lists]
                 if all(k == "date" for k in date_kinds):
                     date_kinds[r.randrange(len(lists))] = r.choice(["timestamp", "datetime"])
@@ -511,6 +551,7 @@ class CaseGen:
         with warnings.catch_warnings():
             warnings.simplefilter("ignore")
             tris = [Triangle(L) for L in lists]
+        n = len(tris[0])
         if tag == "wlen":
             weights, wtag = convex_weights(r, M + 1, True), "list-wrong-length"
         elif tag == "wsum":
@@ -524,6 +565,8 @@ class CaseGen:
             weights, wtag = {f"t{j}": (0.5 if j == 0 else np.array([0.5] * (n + 1))) for j in range(max(M, 2))}, "dict-ragged"
         elif tag == "wtuple":
             weights, wtag = tuple(convex_weights(r, M, True)), "tuple"
+        elif tag == "wempty":
+            weights, wtag = r.choice([[], {}]), "empty-container"
         elif tag == "single_list":
             tris = tris[:1]
             M = 1
@@ -545,17 +588,30 @@ def _cell_cls():
     return Cell
 
 
-def respell_meta(c, j):
-    """the same metadata with two extra details, spelled per triangle: key order and int/float differ"""
+def respell_meta(c, j, i=0, intra=False):
+    """the same metadata plus extra (loss_)details, spelled per triangle -- and, with intra, per cell of ONE slice: key
+    order differs, 7 vs 7.0, True vs 1, limit 1000 vs 1000.0; falsy detail values ('' / 0 / None) ride along"""
+    odd = (j + (i if intra else 0)) % 2
     kw = meta_kwargs(c.metadata)
-    extra = [("region", "NY"), ("coverage", "auto"), ("tier", 7 if j % 2 == 0 else 7.0)]
-    if j % 2:
-        extra = extra[::-1]
-    kw["details"] = dict(extra + list(kw["details"].items())) if j % 2 else dict(list(kw["details"].items()) + extra)
+    extra = [("region", "NY"), ("coverage", "auto"), ("tier", 7.0 if odd else 7), ("flagx", 1 if odd else True),
+             ("note", ""), ("zero", 0.0 if odd else 0), ("nothing", None)]
+    lextra = [("perilx", "wind"), ("layerx", 2.0 if odd else 2)]
+    if odd:
+        extra, lextra = extra[::-1], lextra[::-1]
+    kw["details"] = dict(extra + list(kw["details"].items())) if odd else dict(list(kw["details"].items()) + extra)
+    kw["loss_details"] = dict(lextra + list(kw["loss_details"].items())) if odd else dict(list(kw["loss_details"].items()) + lextra)
     lim = kw["per_occurrence_limit"]
     if lim is not None and float(lim) == int(lim):
-        kw["per_occurrence_limit"] = int(lim) if j % 2 else float(lim)
+        kw["per_occurrence_limit"] = int(lim) if odd else float(lim)
     return c.replace(metadata=c.metadata.__class__(**kw))
+
+
+def flatten_alike_metas():
+    """DISTINCT metadata whose flattened forms coincide or nearly so: they are different slices"""
+    from bermuda import Metadata
+
+    return [Metadata(details={"k": "v"}), Metadata(loss_details={"k": "v"}), Metadata(details={"currency": "USD"}),
+            Metadata(currency="USD"), Metadata(details={"k": ""}), Metadata(details={"k": None}), Metadata()]
 
 
 def rebuild_dates(c, kind):
@@ -569,9 +625,9 @@ def rebuild_dates(c, kind):
 def meta_key(m):
     """Python-equality class of a Metadata: details as a set of items, numbers by value"""
     def nv(v):
-        if isinstance(v, bool) or v is None or isinstance(v, (str, datetime.date)):
+        if v is None or isinstance(v, (str, datetime.date)):
             return (type(v).__name__, v)
-        return ("num", Fraction(v))
+        return ("num", Fraction(int(v) if isinstance(v, (bool, np.bool_)) else v))
 
     return (m.risk_basis, m.country, m.currency, m.reinsurance_basis, m.loss_definition, nv(m.per_occurrence_limit),
             frozenset((k, nv(v)) for k, v in m.details.items()), frozenset((k, nv(v)) for k, v in m.loss_details.items()))
@@ -731,10 +787,37 @@ def seed_monitor(case, res, rec):
                          f"different index vectors for the same weights and sample count")
             break
         seen.setdefault(key, (i, f, d))
+    before = canon_out(res[1])
     res2, _ = run_impl(case["tris"], case["weights"], case["method"], case["seed"])
-    if res2[0] != "ok" or canon_out(res2[1]) != canon_out(res[1]):
+    if res2[0] != "ok" or canon_out(res2[1]) != before:
         fails.append(f"seed {case['seed']}: two runs with the same seed differ")
+    _MON["n"] += 1
+    if _MON["n"] % 4 == 0:
+        fails += edited_result_monitor(case, res, before)
     return fails
+
+
+_MON = {"n": 0}
+
+
+def edited_result_monitor(case, res, before):
+    """H: the caller edits the arrays of an earlier result in place; the same call must still give the same answer"""
+    if res[0] != "ok":
+        return []
+    inputs_before = [canon_out(t) for t in case["tris"]]
+    first, _ = run_impl(case["tris"], case["weights"], case["method"], case["seed"])   # a result of our own to edit
+    if first[0] != "ok":
+        return ["the same call a second time raised " + type(first[1]).__name__]
+    for c in first[1].cells:
+        for v in c.values.values():
+            if isinstance(v, np.ndarray) and v.flags.writeable:
+                v += 1
+    if [canon_out(t) for t in case["tris"]] != inputs_before:
+        return []        # the result shares arrays with the arguments (mixture passes scalars/objects through): C03's subject
+    res3, _ = run_impl(case["tris"], case["weights"], case["method"], case["seed"])
+    if res3[0] != "ok" or canon_out(res3[1]) != before:
+        return ["the same call after the caller edited an earlier result gives a different answer"]
+    return []
 
 
 def canon_out(t):
@@ -764,7 +847,7 @@ def case_to_coq(case, res, rec, tol):
             rep.setdefault(meta_key(c.metadata), c.metadata)
     ts = "[" + ";\n ".join("[" + ";\n  ".join(ccell_m(c, rep[meta_key(c.metadata)]) for c in t.cells) + "]" for t in tris) + "]"
     if res[0] == "ok":
-        impl = "(Ok [" + ";\n  ".join(cqcell(c) for c in res[1].cells) + "])"
+        impl = "(Ok [" + ";\n  ".join(cqcell(c, rep) for c in res[1].cells) + "])"
     else:
         impl = f"(Err {cerr(res[1])})"
     return (f"(({ts},\n {cweights(case['weights'])}, {cmethod(case['method'])}),\n ({fo}, {dt}, {cq(tol)}),\n {impl})")
@@ -860,6 +943,12 @@ def run(ctx):
         ctx.hist("result:" + ("ok" if res[0] == "ok" else type(res[1]).__name__))
         fails = direct_oracles(case, res, rec, tol if tol else Fraction(0))
         fails += seed_monitor(case, res, rec)
+        if res[0] == "ok" and case["method"].lower() == "linear" and len(records) % 6 == 0:
+            c_before = canon_out(res[1])
+            r2, _ = run_impl(case["tris"], case["weights"], case["method"], case["seed"])
+            if r2[0] != "ok" or canon_out(r2[1]) != c_before:
+                fails.append("linear: the same call twice gives different results")
+            fails += edited_result_monitor(case, res, c_before)
         if fails:
             direct_fail.append((case, fails, res))
         try:
@@ -909,6 +998,7 @@ def run(ctx):
                    repr([(m[0]["tag"], m[0]["wtag"], m[0]["method"]) for m in mism[:8]]) + repr(broken[:2]))
     ctx.log(f"cases {len(cases)}, compared in Coq {len(records)}, mismatches {len(mism)}, broken files {len(broken)}, "
             f"direct-oracle failures {len(direct_fail)}")
+    hardening(ctx)
     if (mism or broken) and not direct_fail:
         # search: the mismatching cases are valid-input cases whose direct oracles passed, or refusal cases whose
         # error class / acceptance differs from the model
@@ -926,6 +1016,83 @@ def run(ctx):
             ctx.violation("correspondence", "model and implementation of blend disagree "
                           f"({len(mism)} cases; first: tag={mism[0][0]['tag'] if mism else '-'}, "
                           f"weights={mism[0][0]['wtag'] if mism else '-'})", data, found_input=False)
+
+
+NUMPY_FLOAT_MIX = {"kind": "blend_mixture_numpy_float_vs_float_refused"}
+
+
+def hardening(ctx):
+    """small directed streams (families F, G of notes/HARDENING.md) that run on every quick run"""
+    from bermuda import CumulativeCell, Triangle
+
+    q = dict(period_start=D(2020, 1, 1), period_end=D(2020, 3, 31), evaluation_date=D(2020, 3, 31))
+
+    def tri(v):
+        return Triangle([CumulativeCell(**q, values=v)])
+
+    def run(tris, w, method, seed=1):
+        return run_impl(tris, w, method, seed)[0]
+
+    # G (valid, must work): narrow array dtypes, NumPy float scalars, size-1 arrays against scalars
+    good = [
+        ("float32 + int32 arrays", [tri({"x": np.array([1, 2], dtype=np.float32)}), tri({"x": np.array([3, 5], dtype=np.int32)})],
+         [0.5, 0.5], "linear", [2.0, 3.5]),
+        ("int16 arrays, weights 0.25/0.75", [tri({"x": np.array([4, 8], dtype=np.int16)}), tri({"x": np.array([8, 16], dtype=np.int16)})],
+         [0.25, 0.75], "linear", [7.0, 14.0]),
+        ("np.float64 scalars", [tri({"x": np.float64(4)}), tri({"x": np.float64(8)})], [0.5, 0.5], "linear", [6.0]),
+        ("size-1 array against scalar", [tri({"x": np.array([4.0])}), tri({"x": 8.0})], [0.5, 0.5], "linear", [6.0]),
+        ("bool array (mixture picks samples)", [tri({"x": np.array([True, False, True])}), tri({"x": np.array([True, False, True])})],
+         None, "mixture", [1.0, 0.0, 1.0]),
+        ("np.int64 scalars (F30, repaired)", [tri({"x": np.int64(4)}), tri({"x": np.int64(8)})], [0.5, 0.5], "linear", [6.0]),
+        ("0-d arrays (F30, repaired)", [tri({"x": np.array(4.0)}), tri({"x": np.array(8.0)})], [0.25, 0.75], "linear", [7.0]),
+        ("np.int64 beyond 2**53", [tri({"x": np.int64(2**53 + 2)}), tri({"x": np.int64(2**53 + 2)})], [0.5, 0.5], "linear",
+         [float(2**53 + 2)]),
+        ("strided view", [tri({"x": np.arange(8.0)[::2]}), tri({"x": np.arange(8.0)[::2] * 3})], [0.5, 0.5], "linear",
+         [0.0, 4.0, 8.0, 12.0]),
+    ]
+    for name, tris, w, method, want in good:
+        res = run(tris, w, method)
+        ctx.count(evaluations=1)
+        ctx.hist("hardening:numpy-valid")
+        ok = res[0] == "ok" and len(res[1]) == 1 and np.asarray(res[1].cells[0]["x"], dtype=float).reshape(-1).tolist() == want
+        if not ok:
+            got = repr(res[1]) if res[0] == "err" else repr(res[1].cells[0].values)
+            ctx.violation("impl-violation", f"blend ({name}, {method}): expected {want}, got {got[:120]}",
+                          {"probe": "numpy-valid", "name": name, "case": None}, found_input=True)
+    # known finding B1: EQUAL scalars typed np.float64 in the first triangle and float in a later one are refused by mixture
+    res = run([tri({"x": np.float64(4)}), tri({"x": 4.0})], [0.5, 0.5], "mixture")
+    ctx.count(evaluations=1)
+    if res[0] == "err":
+        ctx.violation("impl-violation", "mixture blend of equal scalars typed np.float64 (first triangle) and float (second) is "
+                      f"refused: {type(res[1]).__name__}: {res[1]}", {"probe": "numpy-float-mix", "name": "np.float64", "case": None},
+                      found_input=True, finding_class=NUMPY_FLOAT_MIX)
+    elif not (len(res[1]) == 1 and float(res[1].cells[0]["x"]) == 4.0):
+        ctx.violation("impl-violation", "mixture blend of equal scalars np.float64 / float does not pass the scalar through",
+                      {"probe": "numpy-float-mix", "name": "np.float64", "case": None}, found_input=True)
+    # F: empty triangles.  A single empty triangle blends to the empty triangle; two empty triangles raise IndexError
+    # (tri.cells[0]) -- outside C16's quantifier (triangles WITH coordinates; lead's decision), mirrored by the model
+    # (Model/Blend.v: `n = 0` with more than one triangle -> Err IndexError); recorded as a note, never as a violation.
+    r1 = run([Triangle([])], None, "linear")
+    if r1[0] != "ok" or len(r1[1]) != 0:
+        ctx.violation("impl-violation", "blend([empty triangle]) does not return the empty triangle", {"probe": "empty-1", "case": None},
+                      found_input=True)
+    r2 = run([Triangle([]), Triangle([])], None, "linear")
+    ctx.count(evaluations=2)
+    ctx.notes.append("blend([empty, empty]) -> " + ("empty triangle" if r2[0] == "ok" else type(r2[1]).__name__)
+                     + " (outside the quantifier; modelled as Err IndexError)")
+
+
+def replay_probe(data):
+    """re-run the hardening probes; 1 if the recorded one still fails"""
+    from harness.common import Ctx
+
+    c = Ctx("C16", "quick", 1)
+    c.known = []
+    hardening(c)
+    hit = [v for v in c.violations if data.get("name") in v["what"] or data.get("probe", "").startswith("empty") and "empty" in v["what"]]
+    for v in hit:
+        print("  FAIL:", v["what"])
+    return 1 if hit else 0
 
 
 def refusal_expected(case):
@@ -952,6 +1119,8 @@ def refusal_expected(case):
 
 
 def replay(ctx, data):
+    if data.get("probe"):
+        return replay_probe(data)
     case = case_from_json(data["case"])
     res, rec = run_impl(case["tris"], case["weights"], case["method"], case["seed"])
     print("blend(", len(case["tris"]), "triangles, weights =", case["weights"], ", method =", case["method"],
